@@ -142,6 +142,8 @@ func (c *Component) recv() {
 		case stanza.StreamClosePacket:
 			// TCP messages should arrive in order, so we can expect to get nothing more after this occurs
 			c.transport.ReceivedStreamClose()
+			// The server has closed the stream: the session is over, whoever asked for it first.
+			c.updateState(StateDisconnected)
 			return
 		}
 		c.router.route(c, val)
